@@ -1,6 +1,6 @@
 import numpy as np
 
-from typing import Optional, TYPE_CHECKING
+from typing import Optional, Sequence, TYPE_CHECKING
 
 from autode.atoms import Atoms
 from autode.values import Coordinates
@@ -129,7 +129,23 @@ class Conformer(Species):
                 "coordinates will leave the atoms undefined"
             )
 
+        if self._coordinates is not None:
+            self._reset_properties_for(new_coordinates=value)
+
         self._coordinates = Coordinates(value)
+
+    def _set_rigidly_moved_coordinates(self, coords: np.ndarray) -> None:
+        """Set coordinates that differ from the current by a rigid motion"""
+        self._coordinates = Coordinates(coords)
+        return None
+
+    def translate(self, vec: Sequence[float]) -> None:
+        """Translate this conformer by a vector"""
+        if self._coordinates is not None:
+            self._set_rigidly_moved_coordinates(
+                np.asarray(self._coordinates) + np.asarray(vec, dtype=float)
+            )
+        return None
 
     @property
     def atoms(self) -> Optional[Atoms]:
@@ -171,6 +187,10 @@ class Conformer(Species):
         if self._coordinates is None:
             self._coordinates = value.coordinates
             return
+
+        self._reset_properties_for(
+            new_coordinates=[atom.coord for atom in value]
+        )
 
         for i, atom in enumerate(value):
             parent_atom = self._parent_atoms[i]
